@@ -108,6 +108,9 @@ def strategy_(draw, tier):
     # the console entry point cannot switch the cleavage exception off (its default is 'auto'):
     # in-process and console runs are compared, so both use 'auto'
     opts['exception'] = 'auto'
+    # the tool's default: with --skip-failed a per-transcript timeout is swallowed as a failed
+    # unit, so a short limit on a loaded machine looks like an extra fault
+    opts['timeout_seconds'] = 1800
     return dict(ref=refd, records=records, opts=opts, skipped=skipped,
         threads_mask=d.randint(1, 62),
         order=d.randint(0, 10 ** 6))
